@@ -75,7 +75,7 @@ func runErrPosCase(c *Ctx, what string, text string, expect ...int) {
 
 func propErrorPositions(c *Ctx) {
 	bad := []string{"a +", "(a", "a b", "a ]", "?", "4e38", "-4e38", "99999999999999999999", "a IS", "f(1,", "1 +* 2", "x[1", "NOT", "a IN", "'abc", "1 2", "a + 1e999", "f(1 2)", "a[1 2]", "a NOT b", ")", "1 + ?"}
-	pre := []string{"", "   ", "x +\n", "x +\n  ", "x\n+\r\n  y *\n\t", "/* c\n c */ 1 +\n      ", "1 + 2 +\n\n\n "}
+	pre := []string{"", "   ", "x +\n", "x +\n  ", "x\n+\r\n  y *\n\t", "/* c\n c */ 1 +\n      ", "1 + 2 +\n\n\n ", "\f", "\v ", " \f\v x +", "\f\n"}
 	for _, p := range pre {
 		for _, b := range bad {
 			runErrPosCase(c, "e", p+b)
